@@ -8,10 +8,13 @@ package main
 // Trace_Pool.tla judges.
 
 import (
+	"bufio"
+	"bytes"
 	"encoding/json"
 	"fmt"
 	"runtime"
 	"sync"
+	"sync/atomic"
 	"testing"
 	"time"
 )
@@ -220,6 +223,93 @@ func TestVfPool(t *testing.T) {
 			r.nstuck = 3
 		}
 		runtime.GOMAXPROCS(old)
+		cases++
+	}
+	// (4) the pool as the proxy uses it: a real Proxy is its change listener and dispatches on its message loop, while
+	// another thread adds and removes backends (what the resolver callback does).  Every membership change must come
+	// back and the loop must still dispatch afterwards (rr.* hooks are not logged here: r.cur stays nil).
+	r.cur = nil
+	for i := 0; i < vfEnvInt("VERIF_NLOOP", 2) && r.nstuck < 3; i++ {
+		tr.Emit(vfM{"ev": "reset", "case": fmt.Sprintf("loop%d", i), "seq": false})
+		la := "127.0.0.1"
+		slr := NewSelfLearnRoute()
+		p := NewProxy("svc.example.com", 1200, la, false, NewPreConfigRoute(), NewPreConfigHostResolver(), slr, true, false)
+		rb := NewRoundRobinBackend()
+		ust, err := NewUDPServerTransport(la, vfFreePort(t, la), true, slr) // the listener the requests are said to come in on (not started)
+		if err != nil {
+			t.Fatalf("VF-INFRA %v", err)
+		}
+		p.AddItem(&ProxyItem{transports: []ServerTransport{ust}, backend: rb, msgHandler: p})
+		var delivered int64
+		mk := func(a string) *vfBackend {
+			return &vfBackend{addr: a, onSend: func(b *vfBackend, raw []byte) { atomic.AddInt64(&delivered, 1) }}
+		}
+		rb.AddBackend(mk(addrs[0]))
+		raw := []byte("OPTIONS sip:svc.example.com SIP/2.0\r\nVia: SIP/2.0/UDP 10.9.9.9:5062;branch=z9hG4bKloop\r\nMax-Forwards: 70\r\nFrom: <sip:a@a.example>;tag=1\r\nTo: <sip:svc.example.com>\r\nCall-ID: loop\r\nCSeq: 1 OPTIONS\r\nContent-Length: 0\r\n\r\n")
+		inject := func() {
+			msg, err := ParseMessage(bufio.NewReaderSize(bytes.NewBuffer(raw), len(raw)))
+			if err != nil {
+				t.Fatalf("VF-INFRA %v", err)
+			}
+			p.HandleRawMessage(NewRawMessage("10.9.9.9", 5062, ust, false, msg))
+		}
+		stop := make(chan struct{})
+		var wg sync.WaitGroup
+		wg.Add(1)
+		go func() { // traffic
+			defer wg.Done()
+			for k := 0; ; k++ {
+				select {
+				case <-stop:
+					return
+				default:
+				}
+				if _, stuck := vfWithin(20*time.Second, inject); stuck {
+					return // the loop's queue is full and nothing drains it: seen as stuck below
+				}
+				if k%8 == 0 {
+					runtime.Gosched()
+				}
+			}
+		}()
+		lr := vfRand(int64(400 + i))
+		stuckOp := ""
+		present := map[string]bool{}
+		for k := 0; k < 300 && stuckOp == ""; k++ {
+			a := addrs[1+lr.Intn(3)]
+			op := "add"
+			if present[a] {
+				op = "rm"
+			}
+			if _, stuck := vfWithin(20*time.Second, func() {
+				if op == "add" {
+					rb.AddBackend(mk(a))
+				} else {
+					rb.RemoveBackend(a)
+				}
+			}); stuck {
+				stuckOp = op
+			}
+			present[a] = !present[a]
+			time.Sleep(time.Duration(lr.Intn(300)) * time.Microsecond)
+		}
+		close(stop)
+		if stuckOp == "" {
+			// afterwards a dispatch still goes through
+			wg.Wait()
+			before := atomic.LoadInt64(&delivered)
+			inject()
+			for end := time.Now().Add(20 * time.Second); atomic.LoadInt64(&delivered) == before && time.Now().Before(end); {
+				time.Sleep(time.Millisecond)
+			}
+			if atomic.LoadInt64(&delivered) == before {
+				stuckOp = "dispatch-after-churn"
+			}
+		}
+		if stuckOp != "" {
+			r.nstuck = 3
+			tr.Emit(vfM{"ev": "stuck", "op": "loop-" + stuckOp})
+		}
 		cases++
 	}
 	fmt.Printf("VF cases=%d events=%d\n", cases, tr.n)
